@@ -517,7 +517,7 @@ def none_and_empty_guards(ctx):
                 txt = unparse(t.ast)
                 if txt in ('self._child_container_tree', 'self.child_container_tree') and lab == 'T':
                     ok = True
-                if txt in ('not self._child_container_tree', 'not self.child_container_tree', 'self._child_container_tree is None') and lab == 'F':
+                if txt in ('self._child_container_tree is None',) and lab == 'F':
                     ok = True
             res.check(ok, 'R-DOM.none-guard', f.fq, f"`{short(derefs[0], 60)}` is reached only when the container exists",
                       fail_detail="for an element type without child content the container is None: AttributeError on None instead of a documented rejection",
@@ -527,7 +527,7 @@ def none_and_empty_guards(ctx):
     f = xe.methods['add_child']
     g = cfg_of(f.node)
     rj = [n for n in g.stmt_nodes() if n.kind == 'stmt' and isinstance(n.ast, ast.Raise) and 'XMLElementCannotHaveChildrenError' in unparse(n.ast)]
-    ok = any(any(t.kind == 'test' and unparse(t.ast) in ('not self._child_container_tree', 'self._child_container_tree is None') and lab == 'T' for t, lab in dom.guards_of(g, r)) for r in rj)
+    ok = any(any(t.kind == 'test' and ((unparse(t.ast) in ('self._child_container_tree', 'self.child_container_tree') and lab == 'F') or (unparse(t.ast) == 'self._child_container_tree is None' and lab == 'T')) for t, lab in dom.guards_of(g, r)) for r in rj)
     res.check(ok, 'R-DOM.none-guard', f.fq, "a checked element without a container rejects children with XMLElementCannotHaveChildrenError", key='R-DOM.none-guard|cannot-have-children')
     # replace_child: emptiness test before the subscript, type check before the first mutation
     f = xe.methods['replace_child']
@@ -538,7 +538,8 @@ def none_and_empty_guards(ctx):
     for n in subs:
         x = [x for e in n.exprs() for x in walk_local(e) if isinstance(x, ast.Subscript) and isinstance(x.value, ast.Name)][0]
         lst = x.value.id
-        gate = [t for t in g.stmt_nodes() if t.kind == 'test' and unparse(t.ast) in (f"not {lst}", f"len({lst}) == 0") and dom.branch_raises(g, t, 'T')]
+        gate = [t for t in g.stmt_nodes() if t.kind == 'test' and ((unparse(t.ast) == lst and dom.branch_raises(g, t, 'F')) or
+                                                                 (unparse(t.ast) == f"len({lst}) == 0" and dom.branch_raises(g, t, 'T')))]
         res.check(bool(gate) and g.path_avoiding(g.entry, n, avoid=gate) is None, 'R-DOM.none-guard', f.fq,
                   f"`{short(x, 40)}` is dominated by `if not {lst}: raise ValueError`", key='R-DOM.none-guard|empty-matches', line=n.line)
     new = f.params[2]
@@ -552,5 +553,5 @@ def none_and_empty_guards(ctx):
     if ck is not None:
         g2 = cfg_of(ck.node)
         for r in [n for n in g2.stmt_nodes() if n.kind == 'stmt' and isinstance(n.ast, ast.Raise) and 'TypeError' in unparse(n.ast)]:
-            ok = ok or any(t.kind == 'test' and unparse(t.ast) == f"not isinstance({ck.params[1]}, XMLElement)" and lab == 'T' for t, lab in dom.guards_of(g2, r))
+            ok = ok or any(t.kind == 'test' and unparse(t.ast) == f"isinstance({ck.params[1]}, XMLElement)" and lab == 'F' for t, lab in dom.guards_of(g2, r))
     res.check(ok, 'R-DOM.none-guard', ck.fq if ck else xe.module.relpath, "a non-element is rejected with TypeError", key='R-DOM.none-guard|type-check-body')
